@@ -582,7 +582,13 @@ def _symbolic_loop(ex, s, fr, var, start, stop, step):
     env_end = fr.env
     body_log = st.log[log_start:]
     # loop-carried memory dependences
-    new_dirty = carried_dependences(ex, body_log, [k], dirty)
+    if getattr(ex, "fast", False):
+      # index/guard schemas only: no solver calls; every array that is both read and written
+      # in the body is treated as carrying a dependence (havocked for the body pass)
+      wr = {a.arr.aid for a in body_log if a.kind != "r"}
+      new_dirty = {a.arr.aid for a in body_log if a.kind == "r" and a.arr.aid in wr}
+    else:
+      new_dirty = carried_dependences(ex, body_log, [k], dirty)
     if new_dirty <= dirty:
       break
     dirty |= new_dirty
@@ -629,10 +635,10 @@ def _symbolic_loop(ex, s, fr, var, start, stop, step):
 
   # state after the loop
   written = {a.arr.aid for a in body_log if a.kind != "r"}
-  if escapes:
+  if escapes or getattr(ex, "fast", False):
     st.arrs = dict(arrs_before)
     for aid in written:
-      ex.havoc_array(st.meta[aid], f"loop with break/return at {info.key}:{s.lineno}")
+      ex.havoc_array(st.meta[aid], "" if getattr(ex, "fast", False) else f"loop with break/return at {info.key}:{s.lineno}")
   else:
     summarise_stores(ex, body_log, arrs_before, st.bound, info.key, s.lineno)
     for aid in dirty:
